@@ -69,6 +69,41 @@ example : validateChecks [({ id := b!"x", level := .restricted, revs := [⟨.mm 
 /-- non-vacuity: a well-formed set with an override, and what it resolves to -/
 example : (populate demo).evaluate .restricted (.mm 1 19) = spec demo .restricted 19 := by decide
 
+
+/-- **`Older` is a strict order with `latest` on top** (the comparison every clamp and every revision look-up rests on):
+    `latest` is older than nothing, every other version is older than `latest`; nothing is older than itself; the relation is
+    transitive; and any two different non-latest versions are comparable. -/
+theorem C04_older_order :
+    (∀ v, Ver.older .latest v = false) ∧ (∀ a b, Ver.older (.mm a b) .latest = true) ∧ (∀ v, Ver.older v v = false) ∧
+    (∀ u v w, Ver.older u v = true → Ver.older v w = true → Ver.older u w = true) ∧
+    (∀ u v, u ≠ v → Ver.older u v = true ∨ Ver.older v u = true) := by
+  refine ⟨fun v => rfl, fun a b => rfl, ?_, ?_, ?_⟩
+  · intro v; cases v <;> simp [Ver.older]
+  · intro u v w huv hvw
+    cases u <;> cases v <;> cases w <;> simp_all [Ver.older]
+    rename_i a b c d e f
+    by_cases h1 : a = c <;> by_cases h2 : c = e <;> by_cases h3 : a = e <;> simp_all <;> omega
+  · intro u v hne
+    cases u with
+    | latest =>
+      cases v with
+      | latest => exact absurd rfl hne
+      | mm c d => right; rfl
+    | mm a b =>
+      cases v with
+      | latest => left; rfl
+      | mm c d =>
+        simp only [Ver.older]
+        by_cases h1 : a = c
+        · subst h1
+          have hbd : b ≠ d := fun h => hne (by rw [h])
+          simp only [ne_eq, not_true_eq_false, ↓reduceIte, decide_eq_true_eq]
+          omega
+        · have h2 : ¬ c = a := fun h => h1 h.symm
+          simp only [ne_eq, h1, h2, not_false_eq_true, ↓reduceIte, decide_eq_true_eq]
+          omega
+
+#print axioms C04_older_order
 #print axioms C04_resolves
 #print axioms C04_privileged
 #print axioms C04_latest_is_newest
